@@ -983,11 +983,13 @@ def classify(gen, kind, name, a, path, target, features, fallback=None):
 
     if table[name] == 'raw' and isinstance(a, str) and a.startswith('='):
         return 'raw_option_keeps_equals_separator'
+    # (the recorded Match-final behaviour is tried first: a value it explains
+    # must not be blamed on the glob order, which is correct in the code)
+    if features['final'] and model() == a:
+        return 'match_final_reparse_discards_first_pass'
     if features['multi_glob'] and \
             val(Ref(gen, target, glob_order=_glob_order).resolve(path)) == a:
         return 'include_glob_not_in_sorted_order'
-    if features['final'] and model() == a:
-        return 'match_final_reparse_discards_first_pass'
     if features['includes'] and model(premature=True) == a:
         return 'token_expansion_differs_with_include'
     if features['includes'] and \
